@@ -891,6 +891,20 @@ def c17(tier, replay):
         sessions.append(sess)
         shard.append(pi)
     run.cov["commands_with_odd_whitespace"] = len(wsp)
+    # ONE unknown line that is longer than any buffer an implementation might read lines into (4 KiB .. 64 KiB, around the
+    # powers of two), ending in the text of a command: it is still one unknown word and must be ignored as a whole - no
+    # second readyok, no exit, no change of the board (the probe behind it gives the reply of the clean session)
+    nlong = 0
+    for k, (L, word) in enumerate([(L, w) for L in ((4096, 8192, 65536) if q else (1024, 4095, 4096, 8191, 8192, 8193, 16384, 32768, 65536, 262144))
+                                   for w in ("isready", "quit", "position startpos moves e2e4", " isready")]):
+        clean_s = sessions[3 * (k % nprobe)]
+        cmd, goline = clean_s[0]["line"], clean_s[3]["line"]
+        pad = L - (1 if word.startswith(" ") else 0)
+        sessions.append([{"do": "send", "line": cmd}, {"do": "isready"}, {"do": "send", "line": "x" * pad + word.replace(" ", "y")}, {"do": "isready"},
+                         {"do": "go", "line": goline, "extra": {"probe": "g%d" % (k % nprobe)}}, {"do": "isready"}, {"do": "quit"}])
+        shard.append(k % nprobe)
+        nlong += 1
+    run.cov["very_long_unknown_lines"] = nlong
     # unknown tokens inside go
     for g in GO_ODD:
         sessions.append([{"do": "send", "line": rng.choice(live)}, {"do": "go", "line": g}, {"do": "isready"}, {"do": "quit"}])
